@@ -84,7 +84,7 @@ func sleepDeadline(s *Sim, d int64) int64 {
 //go:norace
 func sleepUntil(s *Sim, until int64) {
 	if s.aborted {
-		panic(abortPanic{})
+		abortTask(s)
 	}
 	s.steps++
 	s.call(request{kind: reqSleep, t: s.current, until: until})
@@ -136,7 +136,7 @@ func resetTimers() { timerTable = nil }
 //go:norace
 func arm(s *Sim, tm *simTimer, d time.Duration) {
 	if s.aborted {
-		panic(abortPanic{})
+		abortTask(s)
 	}
 	tm.at = sleepDeadline(s, int64(d))
 	timerRegister(tm)
@@ -231,7 +231,7 @@ func TimerStop(rt *time.Timer) bool {
 //go:norace
 func timerCancel(s *Sim, tm *simTimer) bool {
 	if s.aborted {
-		panic(abortPanic{})
+		abortTask(s)
 	}
 	active := !tm.fired && !tm.cancelled
 	tm.cancelled = true
@@ -287,7 +287,7 @@ func tickerLookup(rt *time.Ticker) *simTicker {
 //go:norace
 func startTicker(s *Sim, tk *simTicker) {
 	if s.aborted {
-		panic(abortPanic{})
+		abortTask(s)
 	}
 	tk.gen++
 	gen := tk.gen
